@@ -118,15 +118,68 @@ def run(tier, seed, t0):
         i += 1
         if max(fa.unfolded_size(p)) < 150 and len(p) <= 7:
             base_items.append(engine.Item(f"b{len(base_items)}", p))
-    engine.check_items(PROP + "B", base_items, seed=seed, do_search=False)
+    # stateful and entity programs too: feedback rings of every length, gated cells, latches, placed entities
+    from props import c03, c04, c05, c06
+    n_rich = 1 if tier == "quick" else 5
+    fam = {"ring": c04.make_items(seed * 11 + 1, 8 * n_rich), "cell": c03.make_items(seed * 11 + 2, 4 * n_rich),
+           "latch": c05.make_items(seed * 11 + 3, 4 * n_rich), "entity": c06.make_items(seed * 11 + 4, 4 * n_rich)}
+    for k, lst in fam.items():
+        for j, it in enumerate(lst):
+            it.id = f"{k}{j}"
+            it.family = k
+            it.opts = {}
+    rich_items = [it for lst in fam.values() for it in lst]
+    engine.check_items(PROP + "B", base_items + rich_items, seed=seed, do_search=False)
     good = [it for it in base_items if it.status == "pass"][:n_prog]
+    seen_ring = set()
+    for k, lst in fam.items():
+        ok_ = [it for it in lst if it.status == "pass"]
+        if k == "ring":
+            # one program per ring shape (lengths of its feedback rings), so that every ring length is printed
+            for it in ok_:
+                sig_ = tuple(it.meta.get("rings") or [])
+                if sig_ not in seen_ring and len(seen_ring) < 4 * n_rich:
+                    seen_ring.add(sig_)
+                    good.append(it)
+        else:
+            good.extend(ok_[:n_rich])
     scratch = tempfile.mkdtemp(prefix=f"verif-{os.getpid()}-", dir="/var/tmp")
     items = []
     vs = variants(tier)
+    # the in-process build under each option set the variants use: a decoded output is only held against
+    # the source when the build the compiler planned under the same options is itself certified
+    OPTSETS = {"--no-optimize": {"optimize": False}, "--power-poles": None}
+    opt_items = {}
+    for pi, base in enumerate(good):
+        for var in vs:
+            ex_ = var["extra"]
+            if "--no-optimize" in ex_ or "--power-poles" in ex_:
+                o = {}
+                if "--no-optimize" in ex_:
+                    o["optimize"] = False
+                if "--power-poles" in ex_:
+                    o["power_pole_type"] = ex_[ex_.index("--power-poles") + 1]
+                key = (pi, json.dumps(o, sort_keys=True))
+                if key not in opt_items:
+                    opt_items[key] = engine.Item(f"o{len(opt_items)}", base.decls, text=base.text, opts=o,
+                                                 entities=base.entities, mems=getattr(base, "mems", None))
+    if opt_items:
+        engine.check_items(PROP + "O", list(opt_items.values()), seed=seed, do_search=False)
     jobs = []
+    skipped = 0
     try:
         for pi, base in enumerate(good):
             for vi, var in enumerate(vs):
+                ex_ = var["extra"]
+                if "--no-optimize" in ex_ or "--power-poles" in ex_:
+                    o = {}
+                    if "--no-optimize" in ex_:
+                        o["optimize"] = False
+                    if "--power-poles" in ex_:
+                        o["power_pole_type"] = ex_[ex_.index("--power-poles") + 1]
+                    if opt_items[(pi, json.dumps(o, sort_keys=True))].status != "pass":
+                        skipped += 1
+                        continue
                 jobs.append((pi, vi, base, var))
         from concurrent.futures import ThreadPoolExecutor
 
@@ -155,7 +208,7 @@ def run(tier, seed, t0):
         if ver is None or (ver >> 48, (ver >> 32) & 0xFFFF) != (2, 0):
             rep.obligations += 1
             rep.violation({"program": base.text, "variant": var, "error": f"blueprint version {ver} is not 2.0"}, True)
-        it = engine.Item(tag, base.decls, text=base.text, note=var)
+        it = engine.Item(tag, base.decls, text=base.text, note=var, entities=base.entities, mems=getattr(base, "mems", None))
         it.preset_bpj = bpj
         items.append(it)
         key = (pi, "--no-optimize" in var["extra"], "--power-poles" in var["extra"])
@@ -185,10 +238,15 @@ def run(tier, seed, t0):
     rep.cov.update({
         "programs": len(good), "evaluations": len(items),
         "distinct_nontrivial": len({(it.text, json.dumps(it.note, sort_keys=True)) for it in items if it.status == "pass"}),
-        "rule": "programs whose in-process build is certified x CLI matrix {python -m dsl_compiler, compile.py} x {file, -i} x "
+        "rule": "programs (stateless scalar, feedback rings of each length generated, gated cells, latches, placed entities) "
+                "whose in-process build is certified x CLI matrix {python -m dsl_compiler, compile.py} x {file, -i} x "
                 "{string, --json} x {stdout, -o} plus --no-optimize / --name / --power-poles; non-trivial = decoded output "
                 "certified for all inputs against the source semantics",
         "variants": len(vs), "status_histogram": hist,
+        "program_families": {k: sum(1 for g in good if getattr(g, "family", "scalar") == k)
+                             for k in ("scalar", "ring", "cell", "latch", "entity")},
+        "ring_shapes_printed": sorted(str(list(s_)) for s_ in seen_ring),
+        "variants_skipped_because_the_in_process_build_under_those_options_is_not_certified": skipped,
         "print_assumptions": print_assumptions("Props/C01.v"),
     })
     return rep.finish(assumptions=["base64 / zlib / json decoding is Python's", "the `factompile` console script is the same "
